@@ -175,5 +175,6 @@ let () = iter_lines (fun line ->
       Printf.printf "%s = %s | %s\n" line (String.concat " " (List.map show_pres rs))
         (String.concat "," (List.map string_of_int (List.sort compare (List.map int_of_n p.players))))
   | ["disc"] ->
-      Printf.printf "disc = %s\n" (String.concat " " (List.map (fun l -> if disciplined [] l then "ok" else "BAD") packet_seqs))
+      let bad = List.filter (fun l -> not (disciplined [] l)) packet_seqs in
+      Printf.printf "disc = %s\n" (if packet_seqs <> [] && bad = [] then "ok" else Printf.sprintf "BAD %d of %d" (List.length bad) (List.length packet_seqs))
   | _ -> Printf.printf "?? %s\n" line)
